@@ -64,11 +64,17 @@ def execute(script_name, api, chooser, stall=True, rerun=False, gate_points=None
     clock_mod.datetime = vthreads.ShimDatetimeClass(sched)
     w.net.on_request = lambda label, op: (sched.log('dev-req', label, op), sched.point('dev-req'))
     obs = dict(final=None)
-    gate = dict(armed=False, opened=False, seen=0, event=shim.Event(), opened_at=None)
+    gate = dict(armed=False, want=False, ready=False, opened=False, seen=0, event=shim.Event(), opened_at=None)
 
     def extra(s):
         if gate['opened'] and s.choices_open and s.points > gate['close_at']:
             s.choices_open = False         # deviations are offered up to WINDOW_AFTER_STOP points after the stop
+        if arm == 'first-tick' and not gate['want'] and s.now >= 1.0:
+            gate['want'] = True            # the clock thread has just woken up for its first tick
+        if not gate['armed'] and gate['want'] and gate['ready']:
+            gate['armed'] = True           # ready: the requester has been handed the agent it is to stop
+            if arm == 'first-tick':
+                s.choices_open = True      # deviations are offered from here on only
         if not gate['armed'] or gate['opened']:
             return ()
         gate['seen'] += 1
@@ -88,14 +94,16 @@ def execute(script_name, api, chooser, stall=True, rerun=False, gate_points=None
                 return t
         return None
     sched.extra = extra
+    if arm == 'first-tick':
+        sched.choices_open = False
 
     def instrument(job, tag):
         m = job._machine
         for op, fn in list(m._fn_table.items()):
             def stepped(fn=fn, op=op):
                 sched.log('inst', tag, op.name)
-                if arm == 'first-inst' and tag == 'j' and not gate['armed']:
-                    gate['armed'] = True          # narrow windows start when the script begins to execute
+                if tag == 'j' and (arm == 'first-inst' or (arm == 'wait-inst' and op.name == 'WAIT')):
+                    gate['want'] = True           # narrow windows start when the script begins to execute / to wait
                 return fn()
             m._fn_table[op] = stepped
         real_execute = job.execute
@@ -145,8 +153,9 @@ def execute(script_name, api, chooser, stall=True, rerun=False, gate_points=None
         rq = shim.Thread(target=requester)
         rq.start()
         agent_box[0] = jc.spawn_job(job, 'j') if background else jc.add_job(job, 'j')
+        gate['ready'] = True
         if arm == 'start':
-            gate['armed'] = True
+            gate['want'] = True
         if with_follower:
             jc.add_job(follower, 'f')
         for _ in range(int(HORIZON) + 5):
@@ -310,6 +319,13 @@ def run(tier, seed):
     # visible-bytecode granularity (preemption between two attribute reads of one line)
     opc_pairs = [('timed', 'stop_job')] if tier == 'quick' else [('timed', 'stop_job'), ('straight', 'stop_all'), ('infinite', 'stop_current'), ('time-of-day', 'agent')]
     tasks += [(s, api, 0 if tier == 'quick' else 1, (r, 16), False, 120, 60, True) for s, api in opc_pairs for r in range(16)]
+    # two deviations in the window around the clock's first tick while the script sits in its wait (no deviations
+    # before the tick): the stop racing fire()'s set/clear and wait()'s test-then-wait
+    tick_pairs = [('timed', 'stop_job')] if tier == 'quick' else \
+        [('timed', 'stop_job'), ('timed', 'agent'), ('timed', 'stop_all'), ('time-of-day', 'stop_current'),
+         ('time-of-day', 'bgonly:stop_all'), ('timed', 'bg:stop_job')]
+    for s, api in tick_pairs:
+        tasks += [(s, api, 2, (r, 16), False, 14, 16, False, 'first-tick') for r in range(16)]
     if tier == 'thorough':
         # two further deviations on a narrow window that starts at the script's first instruction
         for s, api in (('timed', 'stop_job'), ('time-of-day', 'stop_all'), ('timed', 'bgonly:stop_all')):
@@ -320,7 +336,8 @@ def run(tier, seed):
     tot_exec = tot_pts = 0
     for task, st in zip(tasks, results):
         s, api, b, shard, rr, gp, wn, opc = task[:8]
-        key = '%s/%s/bound%d/gate%d%s' % (s, api, b, gp, '/bytecode-points' if opc else '')
+        arm = task[8] if len(task) > 8 else 'start'
+        key = '%s/%s/bound%d/gate%d%s%s' % (s, api, b, gp, '/bytecode-points' if opc else '', '' if arm == 'start' else '/armed-at-' + arm)
         cur = per.setdefault(key, dict(schedules=0, stop_positions=0, outcomes=0))
         cur['schedules'] += st['execs']
         cur['stop_positions'] = max(cur['stop_positions'], st['gate_positions'])
@@ -331,13 +348,13 @@ def run(tier, seed):
             k2 = (kind, s)
             c2 = viol.get(k2)
             if c2 is None or len(choices) < len(c2[1]):
-                viol[k2] = [(c2[0] if c2 else 0) + cnt, choices, detail, api, rr, gp, wn, opc]
+                viol[k2] = [(c2[0] if c2 else 0) + cnt, choices, detail, api, rr, gp, wn, opc, arm]
             else:
                 c2[0] += cnt
-    for (kind, s), (cnt, choices, detail, api, rr, gp, wn, opc) in sorted(viol.items()):
+    for (kind, s), (cnt, choices, detail, api, rr, gp, wn, opc, arm) in sorted(viol.items()):
         sig = '%s:%s' % (kind, s)
         rep.violation(sig, '%s: script `%s`, stop via %s (%d schedules): %s' % (kind, SCRIPTS[s], api, cnt, detail),
-                      {'script': s, 'api': api, 'choices': choices, 'rerun': rr, 'gate_points': gp, 'window': wn, 'opcode_points': bool(opc), 'arm': 'first-inst' if gp == 40 else 'start', 'detail': detail, 'schedules': cnt})
+                      {'script': s, 'api': api, 'choices': choices, 'rerun': rr, 'gate_points': gp, 'window': wn, 'opcode_points': bool(opc), 'arm': arm, 'detail': detail, 'schedules': cnt})
     rep.coverage = {
         'states': tot_pts, 'transitions': tot_pts,
         'traces_validated_against_impl': tot_exec, 'evaluations': tot_exec,
@@ -345,7 +362,8 @@ def run(tier, seed):
         'rule': 'per (script, stop API): the stop gate opened at every scheduling point after the job thread was started '
                 '(first %d points; free choice) x every schedule with <= bound further deviations (preemption, non-default '
                 'successor, stall = time jumps to the next timer). distinct_nontrivial = distinct stop positions explored, '
-                'summed over pairs' % GATE_POINTS,
+                'summed over pairs. Tasks marked armed-at-first-tick offer deviations only from the clock\'s first tick on (stop gate at '
+                'the next 14 points, deviations up to 16 points after the stop) with bound 2.' % GATE_POINTS,
         'exhaustive': True,
         'pairs': per,
         'virtual_horizon_s': HORIZON,
